@@ -30,7 +30,9 @@
 (*                   default) or highest (lifo) sequence numbers, and an     *)
 (*                   active monitor with a surplus issues it                 *)
 (*  C20.notBoth      never a create and a delete for one application         *)
-(*  C20.quiet        no call for a suspended or deleted monitor              *)
+(*  C20.quiet        no call for a deleted monitor, nor for one in its       *)
+(*                   back-off period as the OBSERVER knows it (gs: handled   *)
+(*                   failure at t => until t + 300 s), not the code's dict   *)
 (*  drift.step       post-state / calls = what the model computes            *)
 (*  ext.appmon.*     extension beyond C20 (conformance class, reported as    *)
 (*                   DRIFT): the map reevaluate() returns and publishes in   *)
@@ -40,7 +42,7 @@ EXTENDS AppMonOps, Json, IOUtils
 Batch == JsonDeserialize(IOEnv.TRACE_FILE)
 Traces == Batch.traces
 
-VARIABLES t, i, st, gb
+VARIABLES t, i, st, gb, gs
 
 TOK == 9000000
 TOL == 18
@@ -94,12 +96,35 @@ GhostAfter(g, pre, line, post) ==
   ELSE IF line.ev = "DeleteMonitor" THEN Drop(g, line.app)
   ELSE IF line.ev = "Evaluate"
   THEN LET calls == CanonCalls(line) IN
+       \* refilled at every evaluation, suspended or not: capping commutes with waiting
+       \* (min(min(x + r1, cap) + r2, cap) = min(x + r1 + r2, cap)), so this is the bucket
+       \* of the code without consulting its `suspended` dict
        [a \in DOMAIN g |->
-          IF Suspended(pre.susp, a, pre.now) THEN g[a]
-          ELSE [g[a] EXCEPT !.avail = Refilled(g[a].avail, g[a].count, g[a].last, pre.now, TOK)
-                                      - OkCreated(calls, a) * TOK,
-                            !.last = pre.now]]
+          [g[a] EXCEPT !.avail = Refilled(g[a].avail, g[a].count, g[a].last, pre.now, TOK)
+                                 - OkCreated(calls, a) * TOK,
+                       !.last = pre.now]]
   ELSE g
+
+(* ---- the observer's back-off periods ----------------------------------------- *)
+(* From the driver's record alone: a create answered NotFound / BadRequest /      *)
+(* Validation at time t suspends that monitor until t + 300 s; deleting the       *)
+(* monitor ends it.  C20.quiet is judged against this map, NOT against the code's *)
+(* own `suspended` dict (a monitor that forgets its suspensions would otherwise   *)
+(* never be "suspended").                                                          *)
+SuspAfter(g, pre, line) ==
+  IF line.ev = "DeleteMonitor" THEN (IF line.app \in DOMAIN g THEN Drop(g, line.app) ELSE g)
+  ELSE IF line.ev = "Evaluate" /\ "exc" \notin DOMAIN line
+  THEN LET calls == CanonCalls(line)
+           failing == {calls[x].app : x \in {y \in DOMAIN calls :
+                                               calls[y].op = "create" /\ calls[y].o \in Failing}}
+           live == {a \in DOMAIN g : g[a] > pre.now}
+       IN [a \in live \cup failing |-> IF a \in failing THEN pre.now + DelayS ELSE g[a]]
+  ELSE g
+(* suspended by the observer's or by the code's account: "must act" is demanded   *)
+(* only of a monitor that neither considers suspended                              *)
+EitherSusp(g, susp) ==
+  [a \in DOMAIN g \cup DOMAIN susp |->
+     Max2(IF a \in DOMAIN g THEN g[a] ELSE 0, IF a \in DOMAIN susp THEN susp[a] ELSE 0)]
 
 (* ---- what the model computes for one evaluation ---------------------------- *)
 AppExplained(pre, calls, post, a) ==
@@ -200,7 +225,7 @@ ExtReader(post) ==
   /\ \A a \in DOMAIN post.reader :
         post.reader[a] = (IF a \in DOMAIN post.pub THEN post.pub[a] ELSE 0 - 1)
 
-Verdict(pre, g, line, post) ==
+Verdict(pre, g, gsu, line, post) ==
   IF "exc" \in DOMAIN line THEN [fail |-> {"exc"}, ex |-> {}]
   ELSE IF line.ev = "Evaluate" THEN
     LET calls == CanonCalls(line)
@@ -208,9 +233,9 @@ Verdict(pre, g, line, post) ==
         gp == GhostPre(pre, g) IN
     [fail |-> F("C20.noOvershoot", NoOvershoot(p, calls))
               \cup F("C20.budget", BudgetStep(gp, calls, TOK, TOL) /\ BudgetState(post.mon, TOK, TOL))
-              \cup F("C20.surplus", Surplus(p, calls))
+              \cup F("C20.surplus", Surplus([p EXCEPT !.susp = EitherSusp(gsu, pre.susp)], calls))
               \cup F("C20.notBoth", NotBoth(calls))
-              \cup F("C20.quiet", Quiet(p, calls))
+              \cup F("C20.quiet", Quiet([p EXCEPT !.susp = gsu], calls))
               \cup F("drift.step", EvalExplained(pre, calls, post))
               \cup F("ext.appmon.waited", ExtWaited(pre, calls, post))
               \cup F("ext.appmon.published", ExtPublished(pre, calls, post))
@@ -228,6 +253,9 @@ Verdict(pre, g, line, post) ==
             \cup E("apiFailure", \E x \in DOMAIN calls : calls[x].o # "ok")
             \cup E("suspendedSkipped", \E a \in DOMAIN pre.mon : ~Active(p, a) /\
                      Cardinality(ViewOf(p, a)) # pre.mon[a].count)
+            \cup E("backoffObserved", \E a \in DOMAIN pre.mon : Suspended(gsu, a, pre.now) /\
+                     Cardinality(ViewOf(p, a)) # pre.mon[a].count)
+            \cup E("deletedWhileSuspended", \E a \in DOMAIN pre.susp : a \notin DOMAIN pre.mon)
             \cup E("lifo", \E x \in DOMAIN calls : calls[x].op = "delete" /\
                      calls[x].app \in DOMAIN pre.mon /\ pre.mon[calls[x].app].policy = "lifo")
             \cup E("nearInteger", \E a \in DOMAIN pre.mon : Active(p, a) /\
@@ -246,14 +274,16 @@ Init == /\ t \in DOMAIN Traces
         /\ i = 1
         /\ st = Canon(Traces[t].lines[1].post)
         /\ gb = Ghost0(Canon(Traces[t].lines[1].post))
+        /\ gs = Canon(Traces[t].lines[1].post).susp
 
 Next == /\ i < Len(Traces[t].lines)
         /\ i' = i + 1
         /\ t' = t
         /\ st' = Canon(Traces[t].lines[i + 1].post)
         /\ gb' = GhostAfter(gb, st, Traces[t].lines[i + 1], st')
-        /\ LET v == Verdict(st, gb, Traces[t].lines[i + 1], st') IN
+        /\ gs' = SuspAfter(gs, st, Traces[t].lines[i + 1])
+        /\ LET v == Verdict(st, gb, gs, Traces[t].lines[i + 1], st') IN
            PrintT(ToJson([tid |-> Traces[t].tid, i |-> i, fail |-> v.fail, ex |-> v.ex]))
 
-Spec == Init /\ [][Next]_<<t, i, st, gb>>
+Spec == Init /\ [][Next]_<<t, i, st, gb, gs>>
 =============================================================================
